@@ -27,7 +27,7 @@ class C18(Profile):
     owns_registries = True
     tiers = {'quick': 1500, 'thorough': 120000}
     wall_cap = {'quick': 1200, 'thorough': 6 * 3600}
-    probes = ['filter_attached_through_environment', 'bare_composite_after_environment_filter', 'newest_on_last_member', 'newest_on_first_member', 'same_version_on_two_members',
+    probes = ['relationship_versions_differ_in_direction', 'filter_attached_through_environment', 'bare_composite_after_environment_filter', 'newest_on_last_member', 'newest_on_first_member', 'same_version_on_two_members',
               'relationship_and_endpoint_on_different_members', 'nested_composite', 'self_loop', 'detached_member_excluded',
               'composite_filter_attached', 'related_to_nonempty', 'creator_found', 'creator_missing', 'env_facade',
               'navigation_by_id_string', 'relationships_nonempty', 'source_only', 'target_only', 'static_memory_source', 'dict_kept_versions_federated', 'nested_composite_with_own_filter']
@@ -79,6 +79,8 @@ class C18(Profile):
             ver = rng.choice(['2.0', '2.1'])
             e = SW.gen_pool(rng, index + 900000 + r, 1, 3, [('sdo', 1)], versions=(ver,))[0]
             e.update(kind='rel', type='relationship', src=src, dst=dst, rtype=rng.choice(RTYPES), rich=[], common=[])
+            if rng.random() < 0.35:
+                e['flip'] = [rng.random() < 0.5 for _ in range(4)]       # versions of one relationship id that differ in direction
             if rng.random() < 0.3:
                 e['creator'] = rng.randrange(n_ident)
             pool.append(e)
@@ -457,6 +459,8 @@ class C18(Profile):
                     rels[key] = d
             if any(d['source_ref'] == d['target_ref'] for d in rels.values()):
                 world.probe('self_loop')
+            if len({(key[0], d['source_ref']) for key, d in rels.items()}) > len({key[0] for key in rels}):
+                world.probe('relationship_versions_differ_in_direction')
             if kind == 'relationships':
                 out = call(target.relationships, arg, **kw)
                 self.total(out, kind, detail)
